@@ -203,14 +203,27 @@ func Check(c *Case) (res kit.Result) {
 				continue
 			}
 			src := kit.AnyRoot(c.T, C, K-hd.Length+1+n%3)
-			h.buf.Append(src) // moves to new storage; the pooled storage is untouched
-			for i := range out {
-				if out[i] == h {
-					out = append(out[:i], out[i+1:]...)
+			h.buf.Append(src) // this header moves to new storage; the pooled storage is untouched
+			// only the header that grew leaves the pool's capacity class; the other headers of
+			// the buffer (reslices from frame 0 taken earlier, or the original) still are what
+			// the pool handed out and may be used and put back
+			for i := range h.hdrs {
+				if h.hdrs[i] == h.buf {
+					h.hdrs = append(h.hdrs[:i], h.hdrs[i+1:]...)
 					break
 				}
 			}
-			res.Class("grownBufferDropped")
+			if len(h.hdrs) == 0 {
+				for i := range out {
+					if out[i] == h {
+						out = append(out[:i], out[i+1:]...)
+						break
+					}
+				}
+				res.Class("grownBufferDropped")
+			} else {
+				res.Class("oneHeaderGrewOthersRemain")
+			}
 		case "write":
 			hd := h.buf.Hdr()
 			m := kit.Min(n%(C*K+2), hd.Len)
